@@ -226,7 +226,13 @@ def run_impl(case):
                        "docinfo_encoding": el.getroottree().docinfo.encoding}
     except Exception as e:  # noqa: BLE001
         res["lxml_err"] = f"{type(e).__name__}: {e}"
-    # root replacement
+    # root replacement: the current root assigned again (a transformation that works in place and returns its argument)
+    # is a replacement as well
+    try:
+        doc.root = doc.root
+        res["self_assigned"] = observe(doc)
+    except Exception as e:  # noqa: BLE001
+        res["self_assigned"] = {"err": f"{type(e).__name__}: {e}"}
     if case["newroot"] is not None:
         try:
             new = trees.build_api(case["newroot"])
@@ -357,6 +363,8 @@ def judge(run: Run, stream, case, res, models):
         if de is None or codecs.lookup(de).name != codecs.lookup(enc).name:
             run.violation(stream, case, {"why": "lxml sees another encoding", "lxml": de, "used": enc})
     # 3. root replacement
+    if res.get("self_assigned") != res["after"]:
+        run.violation(stream, case, {"why": "assigning the document's own root again changed the document", "got": res.get("self_assigned")})
     if case["newroot"] is not None:
         if "replace_err" in res:
             run.violation(stream, case, {"why": f"replacing the root raised {res['replace_err']}"})
